@@ -911,7 +911,15 @@ impl AliasDef {
     }
 
     pub fn is_alias_chain_resolved(&self) -> bool {
-        self.resolve_alias_chain().is_some()
+        match &self.alias_type {
+            Type::Custom(identifier) => match &identifier.symbol {
+                Some(Symbol::TypeDef(_)) => true,
+                Some(Symbol::AliasDef(next_alias)) => next_alias.is_alias_chain_resolved(),
+                _ => false,
+            },
+            // an alias of a primitive or compound type has no chain left to follow
+            _ => true,
+        }
     }
 }
 
